@@ -4,15 +4,28 @@
     rp2_main._rp2_main_internal) and the tables regenerated from the working tree on every run
     (country tables, template / catalogue / plugin inventory, the flags of fragment l6_flags):
     templates exist for every (country, generator of that country, language the country ships), and a
-    supported, valid run exits 0 having written exactly the configured reports.  The report
-    generators themselves enter as "succeeds unless a known failure condition holds"; that this is
-    what the real generators do (and everything below RP2's own control flow: ezodf, lxml, gettext,
-    the file system) is established only by the correspondence over real CLI runs (harness/props/c16.py).
+    supported, valid run exits 0 having written exactly the configured reports.
 
-    This file contains only statements closed by [exact] of lemmas proved in Proofs/C16Proofs.v. *)
+    First half of this file: the report generators enter MainRun as "succeeds unless a known failure
+    condition holds", the conditions being facts about the input supplied from outside.
+    Second half (COMPOSITION, Model/RunCompose.v, Proofs/RunCompose.v): the same loop runs the four
+    executable report MODELS (full report, tax report us / ie, open positions, jp) on one [rinput];
+    every configured report is produced, in discovery order, and the facts MainRun needs (asset computes,
+    negative balance, taxable types in the window, hidden summary year, holders with a balance) are
+    COMPUTED from the rinput by the report models ([inp_of_rinput]); MainRun's generator predicate is
+    shown to agree with the modelled generators.  What remains assumed is spelled out at
+    [C16_reports_all_produced] / [C16_run_total_of_models].  Everything below RP2's own control flow
+    (ezodf, lxml, gettext, the file system) is established only by the correspondence over real CLI runs
+    (harness/props/c16.py) and the cell-by-cell comparisons of C13 / C14 / C15 / C20.
+
+    This file contains only statements closed by [exact] of lemmas proved in Proofs/C16Proofs.v,
+    Proofs/RunCompose.v, Proofs/RunComposeExamples.v. *)
 From RP2V Require Import Base.Prelude Base.Sorting Model.Types.
 From RP2V Require Import Model.Generated Model.MainRun Proofs.RunLemmas.
 From RP2V Require Import Proofs.C16Proofs.
+From RP2V Require Import Base.Time Base.Dec Base.Assoc Model.Txn Model.Pipeline Model.Computed Model.Grid Model.ReportInput
+  Model.FullReport Model.TaxReport Model.OpenPos Model.JpReport Model.RunCompose
+  Proofs.FullReportProofs Proofs.FullReportWitness Proofs.OpenPosProofs Proofs.RunCompose Proofs.RunComposeExamples.
 Open Scope Z_scope.
 
 (** For every language for which a country ships at least one template: the catalogue exists and every
@@ -65,6 +78,121 @@ Theorem C16_refuted_22_holders :
                                        af_hidden_year := false; af_holders := 22 |}] = (1, files) /\ length files = 1%nat.
 Proof. exact run_refuted_22_holders. Qed.
 
+(** ------------------------------------------------------------------------------------------------------------
+    COMPOSITION with the report models.  [run_reports c v i] (Model/RunCompose.v) runs, in the discovery order of MainRun, the
+    modelled generator of every configured report on the rinput [i] -- [full_report code_flags], [tax_report] with the
+    regenerated US / IE tables, [open_positions], [jp_report] with the structural facts read from the source -- and stops at
+    the first failure; [v : renv] = language codes and the full-report template sizes / translations (universally quantified).
+
+    [reports_ok_hyps v i] (Proofs/RunCompose.v), hypotheses taken from the statements of the per-report theorems:
+      roh_holders  at most [max_holders] = 21 holders with a balance per asset                       (F12; C13_tax_sheet_capacity)
+      roh_window   not (rp2_jp with both -f and -t)                                                  (F7;  C20_report_produced)
+      roh_types    every fraction's event type is one a taxable event can have                       (C14_us/ie_report_produced)
+      roh_side     [reports_side_hyps]: the full-report template holds the input-independent cells ([fenv_fits]); open
+                   positions: catalogue + template for the language, the model's single-method lookup ([method_lookup_ok]: the
+                   model of Model/OpenPos.v still keys a one-entry schedule by 1970 -- stricter than the repaired source), the
+                   13-decimal comparisons of the first pass / unit style are defined (sizes), every listed asset has an account
+                   with a positive balance (C15_no_lookup_fails; follows from the C07 reconciliation, which finding F8 breaks --
+                   kept as a hypothesis); tax report: every fraction's row can be built ([mk_items]: figures and lot labels
+                   defined, C14_report_produced).
+    Not needed any more: legend method lookup (F10 repair, C13_legend_methods), summary-year lookup (F2 repair,
+    C19_summary_lookup_never_fails), IE routing (F4 repair, C14_ie_routing_total), capacities of In-Out / tax-report / JP / open
+    positions sheets (C13_in_out_sheet_capacity, C14_data_sheets_within_capacity, C20_sheets_within_capacity, C15_capacity).
+    All of [reports_ok_hyps] is decidable: [reports_ok_b] is a sound checker. *)
+
+(** every configured report is produced, in order, none fails *)
+Theorem C16_reports_all_produced : forall v i cs,
+  computed_all i (rp_assets i) = Ok cs -> reports_ok_hyps v i ->
+  exists l, run_reports (rp_country i) v i = Ok l /\ map fst l = discovery (rp_country i) /\
+            forall g sheets, In (g, sheets) l -> run_gen v i g = inl sheets.
+Proof. exact run_reports_total. Qed.
+
+(** a single generator needs only its own condition *)
+Theorem C16_report_of_each_generator : forall v i cs g,
+  computed_all i (rp_assets i) = Ok cs -> reports_side_hyps v i -> In g (discovery (rp_country i)) ->
+  gen_condition_absent i g -> exists sheets, run_gen v i g = inl sheets.
+Proof. exact run_gen_total_of_condition. Qed.
+
+(** ... and no write of a produced report leaves its sheet *)
+Theorem C16_reports_within_capacity : forall v i g sheets, run_gen v i g = inl sheets -> within_capacity g sheets.
+Proof. exact run_gen_within_capacity. Qed.
+
+(** MainRun's input facts derived from the report models.  (a) the compute stage: "every processed asset computes, negative
+    balances only with -n" on the derived facts holds exactly when ComputedData exists for every asset *)
+Theorem C16_asset_stage_derived : forall c o cf i, run_matches c o cf i ->
+  (forallb (asset_computes o (inp_of_rinput i)) (assets_to_process o cf) = true <-> exists cs, computed_all i (rp_assets i) = Ok cs).
+Proof. exact assets_stage_iff. Qed.
+
+(** (b) what MainRun tests about the input for generator g is exactly the known condition of g stated on the rinput *)
+Theorem C16_generator_condition_derived : forall c o cf i cs g,
+  run_matches c o cf i -> computed_all i (rp_assets i) = Ok cs ->
+  (jp_window_rejected o g = false /\ generator_fails_on_input g (inp_of_rinput i) = false) <-> gen_condition_absent i g.
+Proof. exact mainrun_condition_iff. Qed.
+
+(** (c) MainRun predicts success for g  =>  the modelled generator returns its report (under [reports_side_hyps] only) *)
+Theorem C16_generator_outcome_of_models : forall c o cf lang s v i cs g f,
+  run_matches c o cf i -> computed_all i (rp_assets i) = Ok cs -> reports_side_hyps v i -> In g (discovery c) ->
+  run_generator c o lang s (inp_of_rinput i) g = Some f ->
+  exists sheets, run_gen v i g = inl sheets.
+Proof. exact gen_outcome_of_models. Qed.
+
+(** (d) and conversely, for every generator but the full report (for which only the witness below shows that more than 21
+    holders overflow), given the facts of L6 alone (usable template, defined file-name label) *)
+Theorem C16_generator_outcome_iff : forall c o cf lang s v i cs g label,
+  run_matches c o cf i -> computed_all i (rp_assets i) = Ok cs -> reports_side_hyps v i -> In g (discovery c) ->
+  g <> GFullReport -> template_usable c g lang = true -> method_label s = Some label ->
+  (run_generator c o lang s (inp_of_rinput i) g = Some (output_name o label g) <-> exists sheets, run_gen v i g = inl sheets).
+Proof. exact gen_outcome_iff. Qed.
+
+(** Main statement, composed: [valid_run'] = options / configuration and rinput describe the same run ([run_matches]), -m and
+    [accounting_methods] not both given, schedule entries name existing methods, ComputedData exists for every asset.  The run
+    exits 0 with exactly the expected files, the modelled generators produce exactly those reports; [valid_run] and
+    [known_conditions_absent] of C16_run_total_partial are derived, not assumed. *)
+Theorem C16_run_total_of_models : forall c o cf v i,
+  supported c o -> valid_run' c o cf i -> reports_ok_hyps v i ->
+  run c o cf (inp_of_rinput i) = (0, map (output_name o (expected_label c o cf)) (discovery c)) /\
+  exists l, run_reports c v i = Ok l /\ map fst l = discovery c /\
+            map (fun gs => output_name o (expected_label c o cf) (fst gs)) l = snd (run c o cf (inp_of_rinput i)).
+Proof. exact run_total_of_models. Qed.
+
+(** the hypotheses can be checked by computation *)
+Theorem C16_hypotheses_decidable : forall v i, reports_ok_b v i = true -> reports_ok_hyps v i.
+Proof. exact reports_ok_b_sound. Qed.
+
+(** non-vacuity: the two-asset input [ex2_i] (AAA: BUY, SELL; BBB: BUY, INTEREST, SELL) meets the hypotheses under rp2_us and
+    rp2_ie, and all reports of the country come out *)
+Theorem C16_composition_nonvacuous_us :
+  ((exists cs, computed_all ex2_i (rp_assets ex2_i) = Ok cs /\ length cs = 2%nat) /\ reports_ok_hyps (wv 0) ex2_i) /\
+  (exists l, run_reports US (wv 0) ex2_i = Ok l /\
+     map (fun gs => (fst gs, length (snd gs))) l = [(GOpenPositions, 3%nat); (GFullReport, 6%nat); (GTaxUS, 3%nat)]) /\
+  (supported US opts0 /\ run_matches US opts0 cfg2 ex2_i /\
+   (o_method opts0 = None \/ cf_sched cfg2 = []) /\ Forall (fun e => str_in (snd e) method_plugins = true) (cf_sched cfg2)).
+Proof. exact (conj ex2_us_hyps (conj ex2_us_reports ex2_run_matches)). Qed.
+Theorem C16_composition_nonvacuous_ie :
+  ((exists cs, computed_all ex2_ie (rp_assets ex2_ie) = Ok cs /\ length cs = 2%nat) /\ reports_ok_hyps (wv 3) ex2_ie) /\
+  (exists l, run_reports IE (wv 3) ex2_ie = Ok l /\
+     map (fun gs => (fst gs, length (snd gs))) l = [(GOpenPositions, 3%nat); (GFullReport, 6%nat); (GTaxIE, 3%nat)]).
+Proof. exact (conj ex2_ie_hyps ex2_ie_reports). Qed.
+
+(** the two remaining conditions are necessary for the report models too.  F12: 22 holders with a balance -- open_positions is
+    written, the full report stage fails with IndexError, the tax report is never started; everything else assumed holds *)
+Theorem C16_composed_refuted_22_holders : exists sheets files,
+  run_reports_trace US (wv 0) (w_holders 22) = ([(GOpenPositions, sheets)], Some (GFullReport, GFIndexError)) /\
+  run_reports US (wv 0) (w_holders 22) = Err EInternal /\
+  map (fun ac => holders_with_balance (w_holders 22) (snd ac)) (computed_list (w_holders 22)) = [22] /\
+  side_hyps_b (wv 0) (w_holders 22) = true /\
+  generator_fails_on_input GFullReport (inp_of_rinput (w_holders 22)) = true /\
+  run US opts0 cfg0 (inp_of_rinput (w_holders 22)) = (1, files) /\ length files = 1%nat.
+Proof. exact compose_refuted_22_holders. Qed.
+
+(** F7: rp2_jp with both dates -- open_positions and the full report are written, then the JP stage refuses *)
+Theorem C16_composed_refuted_jp_from_and_to : exists s1 s2 files,
+  run_reports_trace JP (wv 0) (w_jp 18628 18992) = ([(GOpenPositions, s1); (GFullReport, s2)], Some (GTaxJP, GFErr EInternal)) /\
+  run_reports JP (wv 0) (w_jp 18628 18992) = Err EInternal /\
+  side_hyps_b (wv 0) (w_jp 18628 18992) = true /\
+  run JP o_jp_both cfg0 (inp_of_rinput (w_jp 18628 18992)) = (1, files) /\ length files = 2%nat.
+Proof. exact compose_refuted_jp_from_and_to. Qed.
+
 Print Assumptions C16_template_exists.
 Print Assumptions C16_default_language_shipped.
 Print Assumptions C16_refuted_jp_default_language.
@@ -73,3 +201,16 @@ Print Assumptions C16_run_total_partial.
 Print Assumptions C16_all_reports_written_partial.
 Print Assumptions C16_refuted_jp_from_and_to.
 Print Assumptions C16_refuted_22_holders.
+Print Assumptions C16_reports_all_produced.
+Print Assumptions C16_report_of_each_generator.
+Print Assumptions C16_reports_within_capacity.
+Print Assumptions C16_asset_stage_derived.
+Print Assumptions C16_generator_condition_derived.
+Print Assumptions C16_generator_outcome_of_models.
+Print Assumptions C16_generator_outcome_iff.
+Print Assumptions C16_run_total_of_models.
+Print Assumptions C16_hypotheses_decidable.
+Print Assumptions C16_composition_nonvacuous_us.
+Print Assumptions C16_composition_nonvacuous_ie.
+Print Assumptions C16_composed_refuted_22_holders.
+Print Assumptions C16_composed_refuted_jp_from_and_to.
